@@ -7,10 +7,10 @@ def repeatedTimer : Prog :=
   { ctor := [.atomic [([.notRunning, .notStopped], [.nop, .newTimer, .startTimer, .setRunning true])]],
     run := [.act (.setRunning false),
       .atomic [([.notRunning, .notStopped], [.nop, .newTimer, .startTimer, .setRunning true])],
-      .act (.dump)],
+      .atomic [([.notStopped], [.dump])]],
     stop := [.atomic [([], [.setStopped true, .cancel, .setRunning false])]] }
 
 /-- source lines of the instructions (for the reader; the correspondence harness gates the real threads there) -/
-def repeatedTimerLines : List (List Nat) := [[175], [168, 175, 170], [183]]
+def repeatedTimerLines : List (List Nat) := [[180], [168, 180, 173], [188]]
 
 end LPVerif.Generated
